@@ -47,7 +47,7 @@ func TestC22(t *testing.T) {
 		"sortForTest is on (list values and summarize-map output in a defined order; otherwise Go map order)",
 		"expressions are total by construction (typed grammar); \"\" ordered against a number/boolean is excluded (documented stored-encoding difference)",
 		"summarize min/max of a key returning the whole record is modelled only directly on a table",
-		"union/intersect/minus operands have equal column sets (documented precondition)",
+		"union/intersect/minus operands have equal column sets, except the request class diffcols: (T remove s) union|minus (T [where s in (\"\", ..)]) in either order, judged against the same request with the column put back as extend s = \"\" (a missing column reads as \"\")",
 	}
 	defer rec.Write()
 
